@@ -198,7 +198,11 @@ func (r *Rollback) performRollback(currentRelease, targetRelease *release.Releas
 	if err != nil {
 		msg := fmt.Sprintf("Rollback %q failed: %s", targetRelease.Name, err)
 		slog.Warn(msg)
-		currentRelease.Info.Status = release.StatusSuperseded
+		// Only a revision that was deployed can be superseded: marking a failed
+		// revision superseded would make it look like a previously successful one.
+		if currentRelease.Info.Status == release.StatusDeployed {
+			currentRelease.Info.Status = release.StatusSuperseded
+		}
 		targetRelease.Info.Status = release.StatusFailed
 		targetRelease.Info.Description = msg
 		r.cfg.recordRelease(currentRelease)
